@@ -83,7 +83,7 @@ def tsv_wrong_count(c0: str, c1: str, extra: bool) -> bool:
 def csv_roundtrip(c0: str, c1: str, kind: bool) -> bool:
     """
     pre: len(c0) <= 2 and len(c1) <= 2
-    pre: all(ch in 'a,"' + chr(39) for ch in c0 + c1)
+    pre: all(ch in 'a," ' for ch in c0 + c1)
     post: _
     """
     chsupport.tick()
@@ -130,6 +130,23 @@ def vw_absent_and_label(label: str, t: str, present: bool) -> bool:
     line = label + ' ' + ('|A ' + t + ' ' if present else '') + '|B b_y' + NL
     got = CU['generic_line_parser'](line, None, A('ob-vw'), FW, HDR)
     return seq_eq(got, [label, t[2:] if present else None, 'y'])
+
+
+def vw_empty_namespace(t: str, a_state: int, b_state: int) -> bool:
+    """
+    pre: 1 <= len(t) <= 2
+    pre: all(ch in 'ab_' for ch in t)
+    pre: 0 <= a_state <= 2 and 0 <= b_state <= 2
+    post: _
+    """
+    chsupport.tick()
+    # state 0: namespace absent, 1: present without tokens, 2: present with the token t
+    def ns(name, st):
+        return '' if st == 0 else ('|' + name + ' ' + (t + ' ' if st == 2 else ''))
+    line = '1 ' + ns('A', a_state) + ns('B', b_state) + NL
+    got = CU['generic_line_parser'](line, None, A('ob-vw'), FW, HDR)
+    exp = lambda st: None if st == 0 else ('' if st == 1 else t[2:])
+    return seq_eq(got, ['1', exp(a_state), exp(b_state)])
 
 
 def vw_namespace_order(t: str, swapped: bool) -> bool:
@@ -234,7 +251,7 @@ def tsv_wrong_count_twin(c0: str, c1: str, extra: bool) -> bool:
 def csv_roundtrip_twin(c0: str, c1: str, kind: bool) -> bool:
     """
     pre: len(c0) <= 2 and len(c1) <= 2
-    pre: all(ch in 'a,"' + chr(39) for ch in c0 + c1)
+    pre: all(ch in 'a," ' for ch in c0 + c1)
     post: not _
     """
     return csv_roundtrip(c0, c1, kind)
@@ -265,6 +282,16 @@ def vw_absent_and_label_twin(label: str, t: str, present: bool) -> bool:
     post: not _
     """
     return vw_absent_and_label(label, t, present)
+
+
+def vw_empty_namespace_twin(t: str, a_state: int, b_state: int) -> bool:
+    """
+    pre: 1 <= len(t) <= 2
+    pre: all(ch in 'ab_' for ch in t)
+    pre: 0 <= a_state <= 2 and 0 <= b_state <= 2
+    post: not _
+    """
+    return vw_empty_namespace(t, a_state, b_state)
 
 
 def vw_namespace_order_twin(t: str, swapped: bool) -> bool:
